@@ -422,7 +422,9 @@ def closure_program(draw, version='31'):
     pat = _sf(draw, ['for-list', 'for-list', 'for-map', 'curry', 'for-partial', 'static-partial', 'nested-for', 'let-in-for',
                      'reentrant', 'reentrant', 'hof-closures', 'compose-fold', 'focus-ref',
                      'empty-closure', 'empty-closure', 'empty-closure', 'focus-partial', 'focus-partial', 'focus-partial']
-             + (['callable'] * 5 if version == '31' else []) + ['factory-via-ref'] * 4)
+             + (['callable'] * 5 if version == '31' else []) + ['factory-via-ref'] * 4 + ['typed-hof-param'] * 4)
+    if pat == 'typed-hof-param':
+        return {'pattern': pat, 'ast': typed_hof_param_program(draw, g)}
     if pat == 'factory-via-ref':
         return {'pattern': pat, 'ast': factory_via_ref_program(draw, g)}
     if pat == 'focus-ref':
@@ -517,6 +519,53 @@ def closure_program(draw, version='31'):
     f = ['inline', [x], dep(g.int_(1, ((i, 'int'), (x, 'int'))))]
     return {'pattern': pat, 'ast': ['for', [[i, src]], ['let', [['f', f]], ['seq', ['dyn', ['var', 'f'], [g.lit_int()]],
                                                                             ['dyn', ['var', 'f'], [['var', i]]]]]]}
+
+
+_TYPED_ITEMS = [   # (function item AST, function test, arguments inside the HOF ($s = the value passed along), value AST, 3.1 only)
+    (['ref', 'substring', 2], 'function(xs:string?, xs:double) as xs:string', [['var', 's'], ['int', 3]], ['str', 'abcdef'], False),
+    (['call', 'substring', [['?'], ['?']]], 'function(xs:string?, xs:double) as xs:string', [['var', 's'], ['int', 2]], ['str', 'abcdef'], False),
+    (['call', 'substring', [['?'], ['?'], ['int', 2]]], 'function(xs:string?, xs:double) as xs:string', [['var', 's'], ['int', 3]], ['str', 'abcdef'], False),
+    (['ref', 'substring', 3], 'function(xs:string?, xs:double, xs:double) as xs:string', [['var', 's'], ['int', 2], ['int', 3]], ['str', 'abcdef'], False),
+    (['ref', 'round', 1], 'function(xs:numeric?) as xs:numeric?', [['var', 's']], ['dec', '2.5'], False),
+    (['ref', 'sort', 1], 'function(item()*) as item()*', [['var', 's']], ['seq', ['int', 3], ['int', 1], ['int', 2]], True),
+    (['ref', 'concat', 3], 'function(xs:anyAtomicType?, xs:anyAtomicType?, xs:anyAtomicType?) as xs:string',
+     [['var', 's'], ['str', '-'], ['var', 's']], ['str', 'a'], False),
+    (['call', 'concat', [['?'], ['str', '-'], ['?']]], 'function(xs:anyAtomicType?, xs:anyAtomicType?) as xs:string',
+     [['var', 's'], ['var', 's']], ['str', 'b'], False),
+    (['ref', 'string-join', 1], 'function(xs:anyAtomicType*) as xs:string', [['var', 's']], ['seq', ['str', 'a'], ['str', 'b']], True),
+    (['ref', 'subsequence', 2], 'function(item()*, xs:double) as item()*', [['var', 's'], ['int', 2]], ['seq', ['int', 1], ['int', 2], ['int', 3]], False),
+    (['call', 'subsequence', [['?'], ['?']]], 'function(item()*, xs:double) as item()*', [['var', 's'], ['int', 2]], ['seq', ['int', 4], ['int', 5], ['int', 6]], False),
+    (['ref', 'insert-before', 3], 'function(item()*, xs:integer, item()*) as item()*', [['var', 's'], ['int', 1], ['int', 9]], ['seq', ['int', 1], ['int', 2]], False),
+    (['call', 'insert-before', [['?'], ['?'], ['int', 9]]], 'function(item()*, xs:integer) as item()*', [['var', 's'], ['int', 2]], ['seq', ['int', 1], ['int', 2]], False),
+    (['ref', 'count', 1], 'function(item()*) as xs:integer', [['var', 's']], ['seq', ['int', 1], ['int', 2]], False),
+    (['ref', 'string-length', 1], 'function(xs:string?) as xs:integer', [['var', 's']], ['str', 'abc'], False),
+    (['ref', 'abs', 1], 'function(xs:numeric?) as xs:numeric?', [['var', 's']], ['int', -4], False),
+]
+
+
+def typed_hof_param_program(draw, g):
+    """a named reference of reduced arity / a partial application of a built-in is passed to a user-written higher-order
+    inline function whose parameter has the specific function type of that arity; compared with the direct call"""
+    pool = [t for t in _TYPED_ITEMS if g.v == '31' or not t[4]]
+    item, ftest, args, value, _ = _sf(draw, pool)
+    F = ['var', 'f']
+    call = ['dyn', F, args]
+    k = draw(_upto(3))
+    if k == 0:
+        body = call
+    elif k == 1:
+        body = ['call', 'for-each', [['seq', ['int', 1], ['int', 2]], ['inline', ['i'], call]]]
+    elif k == 2:
+        body = ['call', 'fold-left', [['seq', ['int', 1], ['int', 2]], ['empty'], ['inline', ['acc', 'i'], ['seq', ['var', 'acc'], call]]]]
+    else:
+        body = ['seq', call, ['dyn', ['inline', [['g', ftest]], ['dyn', ['var', 'g'], args]], [F]]]      # handed on to a second typed HOF
+    h = ['inline', [['f', ftest], 's'], body]
+    via = draw(_upto(2))
+    fitem = item if via == 0 else ['var', 'r']
+    binds = [['h', h]] + ([['r', item]] if via else [])
+    res = ['dyn', ['var', 'h'], [fitem, value]]
+    direct = ['dyn', item, [value if a == ['var', 's'] else a for a in args]]
+    return ['let', binds, ['seq', res, direct]]
 
 
 def factory_via_ref_program(draw, g):
